@@ -43,7 +43,7 @@ def model_files_recursive(cur):
     return sorted(p for p in cur if p.startswith("/w/pkg/") and p.endswith((".yml", ".yaml")) and not p.endswith("/_package.yml"))
 
 
-def make_case(seed, i, force_end=None):
+def make_case(seed, i, force_end=None, kinds_bias=(), steer_named=False):
     rng = M.derive(seed, "c20", i)
     cfg = M.GenConfig.swarm(rng.fork("cfg"))
     cfg.n_records = (1, 4)
@@ -52,7 +52,16 @@ def make_case(seed, i, force_end=None):
         cfg.imports = rng.randint(1, 2)
     targets = [t for t in ("cpp", "python", "json", "matlab") if rng.chance(0.55)] or ["python"]
     cfg.odd_namespaces = True
+    if steer_named and not ({"python", "cpp"} & set(targets)):
+        targets = targets + ["python"]
     pkg = M.gen_package(rng.next(), cfg, targets=targets)
+    if steer_named:
+        # named types that keep their names while one session edit changes what they stand for (and how they are encoded)
+        fn_ = sorted(pkg.files)[0]
+        pkg.files[fn_] += [M.Alias("ZqIdent", (), M.Prim("uint32")), M.Alias("ZqSamples", (), M.Vec(M.Prim("float32"))), M.Enum("ZqMode", "uint8", [("idle", 0), ("armed", 1), ("running", 200)])]
+        protos_ = [d_ for d_ in pkg.defs() if isinstance(d_, M.Protocol)]
+        if protos_:
+            protos_[0].steps += [("zqident", M.Named("ZqIdent"), False), ("zqsamples", M.Named("ZqSamples"), False), ("zqmodes", M.Named("ZqMode"), True)]
     M.randomize_target_options(pkg, rng.fork("options"))
     inside = rng.fork("inside")
     for t in targets:
@@ -103,7 +112,10 @@ def make_case(seed, i, force_end=None):
     edits, log = [], []
     n_edits = rng.randint(1, 6)
     in_place = rng.choice([0.0, 0.5, 1.0])
-    kinds_main = (E.COMPATIBLE + E.PARTIAL) if has_versions else (E.COMPATIBLE + E.PARTIAL + E.FREE)
+    # (also: a named type that keeps its name and changes its definition - `Id: uint` -> `Id: ulong`, an enumeration's base type)
+    kinds_main = (E.COMPATIBLE + E.PARTIAL + ["widen_alias"]) if has_versions else (E.COMPATIBLE + E.PARTIAL + E.FREE + ["widen_alias", "widen_alias", "widen_enum_base"])
+    # (a caller that is after a particular kind of model edit gets more of it)
+    kinds_main = kinds_main + [k_ for k_ in kinds_bias if not (has_versions and k_ == "widen_enum_base")]
     removed_targets = {}
     toggled = []
     added_imports = []
@@ -123,6 +135,11 @@ def make_case(seed, i, force_end=None):
         kind = r.weighted([("model", 5), ("import_model", 3 if state.imports else 0), ("manifest", 4), ("break_repair", 2), ("touch", 1),
                            ("import_manifest_break_repair", 2 if state.imports else 0), ("subdir", 1.5), ("replace_import_dir", 1.5 if state.imports else 0),
                            ("version_model", 4 if state.versions else 0), ("tail_def", 2)])
+        if steer_named and e == rng.fork("steeredit").randrange(n_edits):
+            state = copy.deepcopy(state)
+            what_ = E.apply_edit(state, r, "widen_alias", only=("ZqIdent", "ZqSamples")) if (has_versions or r.chance(0.7)) else E.apply_edit(state, r, "widen_enum_base", only=("ZqMode",))
+            log.append("model: %s" % what_)
+            kind = "steered"
         if kind == "tail_def":
             # a definition appended at the very end of the model file that is read last (it becomes the last thing in several
             # generated files), taken away again by a later save: the new generated text is a prefix of the old one
@@ -328,11 +345,11 @@ def make_case(seed, i, force_end=None):
                 k = sum(1 for l, _ in state.versions if l.startswith("rel")) + 1 + e * 10
                 snap.dirname = "%s_rel%d" % (state.dirname, k)
                 state.versions.append(("rel%d" % k, snap))
-                kinds_main = E.COMPATIBLE + E.PARTIAL
+                kinds_main = E.COMPATIBLE + E.PARTIAL + ["widen_alias"]
                 op = "add_version rel%d (%s)" % (k, snap.dirname)
             elif op == "drop_versions":
                 state.versions = []
-                kinds_main = E.COMPATIBLE + E.PARTIAL + E.FREE
+                kinds_main = E.COMPATIBLE + E.PARTIAL + E.FREE + ["widen_alias", "widen_alias", "widen_enum_base"]
             elif op == "toggle_option":
                 # half of the time an option that was switched before is switched back (off and on again in one session)
                 again = [tf for tf in toggled if tf in flags]
